@@ -23,7 +23,7 @@ import (
 // The node state the certificate code reads is:
 //   - BFT heights (maxHeightPrevoted / maxHeightPrecommited / maxHeightCertified),
 //   - BFT parameter sets: set A stored at height 0 and, if hasNext, set B stored at height nextH
-//     (same validators and keys, own weights and certificate threshold),
+//     (same keys, own weights and certificate threshold; a set may lack one of the n validators: zz06Params.absent),
 //   - the node's own chain: a header for every height <= tip,
 //   - the certificate pool.
 //
@@ -34,6 +34,7 @@ import (
 // unmodified liskBFT / blockchain code reads them.
 
 type zz06Params struct {
+	absent    int // index of a validator that is NOT a member of this set (-1: all n are members)
 	threshold uint64
 	weights   []uint64
 	vals      []*liskbft.BFTValidator
@@ -81,8 +82,8 @@ func zz06NewEnv(t *zzT, n int, order []byte) *zz06Env {
 	e.bls = zz06NewBLS(t, n, order)
 	e.ownID = make([]byte, 32)
 	e.ownID[0] = 0xb1
-	e.setA = &zz06Params{obj: &liskbft.BFTParams{}}
-	e.setB = &zz06Params{obj: &liskbft.BFTParams{}}
+	e.setA = &zz06Params{absent: -1, obj: &liskbft.BFTParams{}}
+	e.setB = &zz06Params{absent: -1, obj: &liskbft.BFTParams{}}
 	e.chain = blockchain.NewChain(&blockchain.ChainConfig{ChainID: e.chainID, MaxBlockCache: 8})
 	if !t.Symbolic() {
 		d, err := db.NewInMemoryDB()
@@ -113,6 +114,9 @@ func (e *zz06Env) setParams(p *zz06Params, threshold uint64, weights []uint64) {
 	p.threshold, p.weights = threshold, weights
 	p.vals = nil
 	for i := 0; i < e.n; i++ {
+		if i == p.absent {
+			continue
+		}
 		p.vals = append(p.vals, liskbft.NewValidator(zz06Addr(i), weights[i], e.bls.keys[i]))
 	}
 }
